@@ -30,6 +30,7 @@ AnswerMatches(op, a, v, seq) ==
     [] op = "sequence" -> a.seq = seq
     [] op = "dot_bracket" -> a.seq = seq /\ a.db = v
     [] op = "fcfs"     -> a.seq = seq /\ a.db = v
+    [] op = "convert_none" -> a.seq = seq /\ a.db = v
     [] op = "all"      -> TextSet(a.list) = v /\ Len(a.list) = Cardinality(v)
     [] op = "elements" -> StemSet(a.stems) = v.stems /\ HpSet(a.hairpins) = v.hairpins
                           /\ Len(a.stems) = Cardinality(v.stems) /\ Len(a.hairpins) = Cardinality(v.hairpins)
